@@ -5,6 +5,9 @@ open Bmc.Proto.Metrics
 
 def attOf : Char → Option Att
   | 'F' => some (.final 0) | 'E' => some (.final 0xC1) | 'B' => some (.temp 0xC0) | 'T' => some (.temp 0xC3)
+  | 'a' => some (.final 0x01) | 'b' => some (.final 0x41) | 'd' => some (.final 0x81) | 'e' => some (.final 0xD0)
+  | 'f' => some (.final 0xD3) | 'h' => some (.final 0xFF) | 'i' => some (.final 0xCC) | 'j' => some (.final 0x7F)
+  | 'm' => some (.final 0xC9) | 'n' => some (.final 0x80)
   | 'X' => some .junk | 'G' => some .junk | 'L' => some .lost | 'K' => some .cancelled | _ => none
 
 def attsOf (s : String) : Option (List Att) := if s == "-" then some [] else s.toList.mapM attOf
